@@ -41,7 +41,17 @@ def leaf_matches(node_sym: Terminal, leaf_sym) -> bool:
     lk, lv = terminal_payload(leaf_sym)
     if node_sym.is_regex:
         if kind == "str":
-            return lk == "str" and re.fullmatch(lit, lv, re.DOTALL) is not None
+            if lk == "str":
+                return re.fullmatch(lit, lv, re.DOTALL) is not None
+            if lk == "bytes":
+                # a text regex matched inside a BYTES input is represented by a bytes leaf holding the encoding of the matched text
+                for enc in ("utf-8", "latin-1"):
+                    try:
+                        if re.fullmatch(lit, lv.decode(enc), re.DOTALL) is not None:
+                            return True
+                    except UnicodeDecodeError:
+                        pass
+            return False
         if kind == "bytes":
             data = lv if lk == "bytes" else lv.encode("latin-1") if lk == "str" else None
             return data is not None and re.fullmatch(lit, data, re.DOTALL) is not None
@@ -55,6 +65,10 @@ def leaf_matches(node_sym: Terminal, leaf_sym) -> bool:
 
 
 def rep_bounds(node):
+    if getattr(node, "bounds_constraint", None) is not None:
+        # a COMPUTED count: the declared bounds depend on the tree; shape only here (the harnesses check the count with
+        # recognisers of their specs' languages and with the spec's own repetition-bounds constraints)
+        return 0, 10 ** 6
     lo = node.min
     hi = node.max          # open upper bound = the cap in force
     return lo, hi
